@@ -297,7 +297,7 @@ def requests_for(case, out):
         if fn == "kruskal":
             reqs.append(["kruskal", case["n"], case["edges"], key == "True", sol])
         else:
-            reqs.append(["prim", case["adj"], 0 if key == "None" else int(key), sol])
+            reqs.append(["prim", case["adj"], 0 if key == "None" else int(key), sol, case["edges"]])
     return reqs
 
 
@@ -306,9 +306,13 @@ def judge_call(ctx, case, fn, key, o, reply, rep):
     n = case["n"]
     what = f"{fn}({'allow_forest=' + key if fn == 'kruskal' else 'start=' + key})"
     rep = dict(rep, call=what, impl=o, model=reply)
-    m_status, m_sol, m_obj, m_iters, uf_same, connected, comps, brute, valid, chk = reply
+    m_status, m_sol, m_obj, m_iters, uf_same, connected, comps, brute, valid, chk = reply[:10]
     if not valid and n > 0:
         raise core.Infra(f"generator produced an invalid graph: {case}")
+    if fn == "prim" and reply[10] != [True, True]:
+        # hypotheses of prim_tree / prim_minimal / kruskal_prim_agree, decided by goodAdjB / sameGraphB
+        raise core.Infra(f"generator produced adjacency lists that are not the undirected graph of the edge list "
+                         f"(goodAdj, sameGraph) = {reply[10]}: {case}")
     if not uf_same:
         raise core.Infra(f"parent/rank mirror kruskalUF disagrees with kruskal on {case} (proved equal: cannot happen)")
     ctx.count(f"{fn}:model_status:{m_status}")
@@ -444,7 +448,7 @@ def run_cases(ctx, cases):
 def run(ctx, budget):
     ctx.cov["rule"] = RULE
     cases = list(edge_cases()) + [c["case"] for c in core.load_corpus("C13")]
-    n = 1200 * budget
+    n = 5000 * budget
     thorough = ctx.tier == "thorough"
     cases += [gen_case(ctx.rng, big=(thorough and i % 3 == 0), all_starts=(thorough or i % 4 == 0)) for i in range(n)]
     run_cases(ctx, cases)
